@@ -54,21 +54,26 @@ Section Term.
   Lemma drive_total : forall fuel step s tr, TT step fuel s -> zdrive fuel n s step tr <> None.
   Proof.
     induction fuel as [|f IH]; intros step s tr H.
-    - exfalso. destruct step as [|[|[|[|[|[|[|k]]]]]]]; simpl in H; lia.
+    - exfalso. destruct step as [|[|[|[|[|[|[|k]]]]]]]; simpl in H; try lia;
+        repeat match goal with X : _ /\ _ |- _ => destruct X end; nia.
     - destruct step as [|[|[|[|[|[|[|k]]]]]]]; simpl in H.
       + rewrite drive_0. discriminate.
-      + rewrite drive_1. apply IH. simpl. destruct H as [T F]. split; [apply step1_T; assumption | lia].
-      + rewrite drive_2. apply IH. simpl. destruct H as [T F]. split; [apply step2_T; assumption|].
-        assert ((n - kc n (zstep2 s)) * W <= n * W) by (apply Nat.mul_le_mono_r; lia). lia.
+      + rewrite drive_1. apply IH. unfold TT. destruct H as [T F]. remember (n * W) as X.
+        split; [apply step1_T; assumption | lia].
+      + rewrite drive_2. apply IH. unfold TT. destruct H as [T F]. split; [apply step2_T; assumption|].
+        assert ((n - kc n (zstep2 s)) * W <= n * W) by (apply Nat.mul_le_mono_r; lia).
+        remember (n * W) as X. remember ((n - kc n (zstep2 s)) * W) as Y. lia.
       + rewrite drive_3. apply IH. destruct H as [T F].
-        destruct (step3_T n M0 s T) as [N|[N [T' [R0 K']]]]; rewrite N; simpl; [lia|].
-        pose proof T' as [_ [_ [KL _]]]. rewrite K' in *.
-        assert (EW : (n - kc n s) * W = (n - kc n s - 1) * W + W).
-        { replace (n - kc n s) with (S (n - kc n s - 1)) at 1 by lia. simpl. lia. }
-        rewrite R0. split; [exact T'|]. unfold W in *. split; [lia | intros _; lia].
+        destruct (step3_T n M0 s T) as [N|[N [T' [R0 K']]]]; rewrite N; unfold TT.
+        * remember ((n - kc n s) * W) as X. lia.
+        * pose proof T' as [_ [_ [KL _]]]. rewrite K' in *. rewrite R0.
+          assert (EW : (n - kc n s) * W = (n - kc n s - 1) * W + W).
+          { replace (n - kc n s) with (S (n - kc n s - 1)) at 1 by lia. simpl. lia. }
+          rewrite EW in F. remember ((n - kc n s - 1) * W) as X. unfold W in F.
+          split; [exact T'|]. split; [lia | intros _; lia].
       + rewrite drive_4. destruct H as [T [F1 F2]].
         destruct (step4_T n M0 s T) as [s' [nx [E [K' O]]]]. rewrite E. apply IH.
-        destruct O as [[-> T']|[-> [T' [LE NZ]]]]; simpl; rewrite K'.
+        destruct O as [[-> T']|[-> [T' [LE NZ]]]]; unfold TT; rewrite K'; remember ((n - kc n s - 1) * W) as X.
         * split; [exact T' | lia].
         * split; [exact T'|].
           assert (Lr : length (sRC s') = n) by (destruct T' as [[B _] _]; apply (b_wf _ _ _ B)).
@@ -77,11 +82,12 @@ Section Term.
           -- specialize (F2 (NZ EQ)). rewrite EQ. lia.
           -- lia.
       + rewrite drive_5. destruct H as [T F].
-        destruct (step5_T n M0 s T) as [s' [E [T' KL]]]. rewrite E. apply IH. simpl. split; [exact T'|].
-        assert ((n - kc n s') * W <= (n - kc n s - 1) * W) by (apply Nat.mul_le_mono_r; lia). lia.
+        destruct (step5_T n M0 s T) as [s' [E [T' KL]]]. rewrite E. apply IH. unfold TT. split; [exact T'|].
+        assert ((n - kc n s') * W <= (n - kc n s - 1) * W) by (apply Nat.mul_le_mono_r; lia).
+        remember ((n - kc n s - 1) * W) as X. remember ((n - kc n s') * W) as Y. lia.
       + rewrite drive_6. destruct H as [T F].
-        destruct (step6_T n M0 Hdiag s T) as [s' [E [T' [ER [EK [i [j [Hi [Hj U]]]]]]]]]. rewrite E. apply IH. simpl.
-        rewrite ER, EK. split; [exact T'|]. split; [lia|].
+        destruct (step6_T n M0 Hdiag s T) as [s' [E [T' [ER [EK [i [j [Hi [Hj U]]]]]]]]]. rewrite E. apply IH. unfold TT.
+        rewrite ER, EK. remember ((n - kc n s - 1) * W) as X. split; [exact T'|]. split; [lia|].
         intro NZ. rewrite (NZ i j Hi Hj) in U. discriminate.
       + rewrite drive_7. discriminate.
   Qed.
